@@ -768,6 +768,8 @@ def check_case(rn, case, nkill, nint, rng, replay_only=None, nfault=0):
             rep.update(extra)
         if not ctx.violation(rep, what="%s [%s: zstd %s]" % (what, case.name, " ".join(case.argv())), no_input=no_input, key=key):
             nviol -= 1          # a known finding: printed as KNOWN-FINDING, does not stop the run
+            return False
+        return True
 
     # ---- reference run
     r = rn.execute(case)
@@ -908,8 +910,7 @@ def check_case(rn, case, nkill, nint, rng, replay_only=None, nfault=0):
 
     # ---- injected I/O faults
     if nfault:
-        nviol += check_faults(rn, pr, r["entries"], nfault, rng, report, zcache)
-        if nviol:
+        if check_faults(rn, pr, r["entries"], nfault, rng, report, zcache):
             return nviol
 
     # ---- kill points
@@ -973,7 +974,8 @@ def check_case(rn, case, nkill, nint, rng, replay_only=None, nfault=0):
                 handled = st == ("EXIT", 2)
                 ctx.count(("sigint", case.shape(), j, handled), nontrivial=True)
                 for w_ in bad:
-                    report("sigint", "SIGINT at system call #%d (wide grid): %s" % (k, w_), dict(k=k))
+                    report("sigint", "SIGINT at system call #%d (wide grid): %s" % (k, w_), dict(k=k),
+                           key="C19-dangling-destination-link-artefact" if (DANGLING in w_ and handled) else None)
                 if j < 0 and not bad:
                     report("tie-sigint", "directory after SIGINT at system call #%d of the wide grid (%s file operations completed) is not a state of sigint_ops after that many operations: %s" %
                            (k, nv, show_dir(kreal)), dict(k=k), no_input=True)
@@ -1141,8 +1143,9 @@ def check_faults(rn, pr, entries, nfault, rng, report, zcache):
                         if x["site"] == "wfail":
                             keyed = "C19-write-error-leaves-partial-destination"
             for b in bad:
-                report("fault", "%s: %s" % (what, b), dict(k=x["k"], errno=E, site=x["site"], dir=show_dir(kreal), status=st), key=keyed)
-                nviol += 1
+                kk = "C19-dangling-destination-link-artefact" if (DANGLING in b and code not in (0, None)) else keyed
+                if report("fault", "%s: %s" % (what, b), dict(k=x["k"], errno=E, site=x["site"], dir=show_dir(kreal), status=st), key=kk):
+                    nviol += 1
             if not bad:
                 # the model's prediction under the same fault
                 tie = []
@@ -1159,9 +1162,9 @@ def check_faults(rn, pr, entries, nfault, rng, report, zcache):
                     if not node_matches(pr, pr.zbytes, n, v, kreal.get(n), cut=(x["site"] == "close")):
                         tie.append("final state of %s: model %s, real %s" % (n, v[:40], show_dir({n: kreal.get(n)})[n] if kreal.get(n) is not None else "absent"))
                 if tie:
-                    report("tie-fault", "%s (model fault site %s of %s): %s" % (what, x["site"], x["key"], "; ".join(tie)[:1200]),
-                           dict(k=x["k"], errno=E, site=x["site"], real_events=rev, model_events=mev, status=st), no_input=True)
-                    nviol += 1
+                    if report("tie-fault", "%s (model fault site %s of %s): %s" % (what, x["site"], x["key"], "; ".join(tie)[:1200]),
+                              dict(k=x["k"], errno=E, site=x["site"], real_events=rev, model_events=mev, status=st), no_input=True):
+                        nviol += 1
             rn.cleanup(kr)
             if nviol:
                 return nviol
@@ -1805,15 +1808,17 @@ def check_cli_sparse(rn, g, thorough):
 def run(ctx):
     rng = random.Random(ctx.seed * 7919 + 19)
     ctx.cov["rule"] = (
-        "cases = CLI invocations from the grammar {compress, decompress, test} x {1..3 sources: regular / missing / directory; "
-        ".zst sources good / multi-frame+skippable / corrupted / truncated / trailing junk / empty / not-zstd} x {default destination, -c, -o} x "
-        "{-f, --rm, -q or interactive y/n} x {destination pre-exists or not}: a fixed boundary corpus first, then cases from one PRNG seeded by VERIF_SEED. "
-        "Each case: reference run under the ptrace supervisor (canonical file-operation trace vs extracted fio_ops, final directory vs model, exit status vs "
-        "library verdict), then the process tree is killed at system call k (every k from the first call naming a case file; sampled in quick) and SIGINT is "
-        "delivered at sampled calls of a finer grid; sparse-writer cases = run specs (zero / non-zero runs around the 8-byte word, the 32 KiB segment, job and frame "
-        "boundaries, >1 GiB stored skips) driven through AIO_fwriteSparse/End vs the model call by call. distinct_nontrivial counts distinct signatures "
-        "(kind, invocation shape, model operation-kind sequence | matched model prefix state index | sparse op-kind sequence); a trace is trivial if the model "
-        "predicts no file operation besides exit.")
+        "cases = CLI invocations from the grammar {compress, decompress, test} x {1..3 sources: regular / missing / directory / symbolic link / stdin; "
+        ".zst sources good / multi-frame / skippable-only / corrupted / truncated / trailing junk / empty / not-zstd} x {default destination, -c, -o, -O dir} x "
+        "{-f, --rm / -k in either order, -q or interactive y/n, -r over a directory tree, --exclude-compressed, -D (present / missing / directory / equal to a source), "
+        "--patch-from} x {destination pre-exists / is a symbolic link (to a file, dangling, to a directory) or not}: a fixed boundary corpus first (round 1 corpus + corpus2), "
+        "then cases from one PRNG seeded by VERIF_SEED. Each case: reference run under the ptrace supervisor (canonical file-operation trace vs extracted fio_ops, final "
+        "directory vs model, exit status vs library verdict); fault catalogue: every file-system call of the run fails once (injected errno) and the real outcome is judged by "
+        "the direct oracles and compared with the model under the same fault; then the process tree is killed at system call k (every k from the first call naming a case "
+        "file; sampled in quick) and SIGINT is delivered at sampled calls of a finer grid; sparse-writer cases = run specs (zero / non-zero runs around the 8-byte word, the "
+        "32 KiB segment, job and frame boundaries, >1 GiB stored skips, zero runs beyond 4 GiB) driven through AIO_fwriteSparse/End vs the model call by call (vs the plain "
+        "content beyond 4 GiB), and CLI scenarios for the sparse setting. distinct_nontrivial counts distinct signatures (kind, invocation shape, model operation-kind sequence | "
+        "fault site | matched model prefix state index | sparse op-kind sequence); a trace is trivial if the model predicts no file operation besides exit.")
     import glob
     import time
     t0 = time.time()
@@ -1829,7 +1834,8 @@ def run(ctx):
         "the theorems are about the Gallina model (coq/Cli); the model is tied to programs/*.c by differential testing of the rebuilt binary (trace, kill points, SIGINT points, sparse calls)",
         "crash points are system-call boundaries of the traced process tree; libc stdio buffering and kernel/file-system durability are outside (no fsync is claimed)",
         "verdict_sound (codec right when it reports success) is a hypothesis of crash_safe: properties C01/C02/C04 carry it; per run the destination is decoded/compared with the library",
-        "I/O faults (EXM_THROW paths: write error, close error) are in the model as Throw/close_ok but are not injected on the real binary",
+        "I/O faults are injected into the real binary one failing call per run (ptrace: the call is skipped and returns -errno) over the fault catalogue; the theorems cover all fault combinations on the model",
+        "zero runs beyond 4 GiB: the real sparse writer is compared with the plain content; the model side is the theorems sparse_equiv_over_4GiB / sparse_skips_bounded",
     ]
     if ctx.replay_file:
         return replay(ctx, tools)
@@ -1896,7 +1902,15 @@ def replay(ctx, tools):
         rn = Runner(ctx, tools, m)
         rng = random.Random(ctx.seed)
         kind = rep.get("kind", "")
-        if kind.startswith("sparse"):
+        g = Gen(rn, rng)
+        if kind == "sparse-big":
+            check_sparse_big(ctx, tools, True)
+        elif kind in ("sparse-setting", "cli-sparse"):
+            check_sparse_setting(rn, g)
+            check_cli_sparse(rn, g, False)
+        elif kind == "read-error":
+            check_read_errors(rn, g, rng)
+        elif kind.startswith("sparse"):
             out = os.path.join(ctx.scratch, "sparse.out")
             rc, so, se = core.sh([tools.sparse, out, "1", rep["skips0"], rep["spec"]], timeout=120)
             ml = m.ask("SP;%s;%s" % (rep["skips0"], rep["spec"]))
@@ -1909,7 +1923,7 @@ def replay(ctx, tools):
                 ctx.violation(rep, what="replay: sparse call sequence differs from the model", no_input=True)
         elif "case" in rep:
             case = Case.from_json(rep["case"])
-            check_case(rn, case, None, 40, rng)
+            check_case(rn, case, None, 40, rng, nfault=(10 ** 6 if kind in ("fault", "tie-fault") else 0))
         else:
             core.log("nothing to replay in", ctx.replay_file)
     finally:
